@@ -34,8 +34,10 @@ Theorem C48_intersect_sub_spec : forall main rest a keep, Inv main a ->
   forall h, get main (restrict main rest a keep) h = if keep h then get main a h else None.
 Proof. exact restrict_spec. Qed.
 
-Theorem C48_oracle_sound : forall c, check_C48 c = true -> case_spec c.
-Proof. exact check_C48_sound. Qed.
+(* the oracle means exactly: All() lists the reference bindings once each, Len() is their number,
+   every Get agrees with them, and Intersect / Sub list exactly the kept / not kept bindings *)
+Theorem C48_oracle_sound : forall c, check_C48 c = true <-> case_spec_full c.
+Proof. exact check_C48_iff. Qed.
 
 Print Assumptions C48_get_set_delete_spec.
 Print Assumptions C48_all_nodup.
